@@ -115,6 +115,21 @@ CHECKS = {
 }
 
 CHECKS.update({
+    "C25": (
+        "round trip on models read from Engine-B texts (every syntax form incl. bracket strings, f-/t-strings with conversions, =, nested multi-part format specs): hy.eval(hy.read(hy.repr(m))) compared node by node (type, value, brackets, conversion, is_tstring) and hy.repr of the result compared with the first text",
+        "Thousands of models per run, each top-level model separately; one recorded finding (a format-spec literal containing '}') is identified by a root-cause predicate on the model, counted as excluded_known.",
+        "Models come from the reader (C20 checks the reader against independently built models); FComponent.expression is not compared (the property does not list it).",
+        "textgen", "2/C25"),
+    "C29": (
+        "grammar-generated nested values, existing models and self-referential/shared object graphs (tagged JSON rebuilt per case), histories of 1..3 promotions with in-place healing and repeated promotion; oracles: all-Object, model preservation, idempotence, independent value model against hy.eval, HyWrapperError for cycles, guard state empty afterwards",
+        "About 12 000 (quick) to 600 000 (thorough) histories; all 114 combinations of enclosing kind, holder kind and wrapper for self-reference are enumerated each run.",
+        "Evaluated leaves are compared type-exactly and NaN-aware; set/dict order is not compared.",
+        "values", "2/C29"),
+    "C36": (
+        "Hypothesis-generated macro environments (chains across module / required module / macros= namespaces, shadowing of core macros, returned arguments, non-model return values) and forms against a reference expansion stepper that never imports hy, plus a deep attribute snapshot of the input before/after; 40 compiler-implemented forms enumerated",
+        "macroexpand-1 = exactly one step or identity, macroexpand = fixpoint on the head, compiler-implemented macros leave the form as it is, the input model is never mutated; inputs with positions from text, none, root only, or a drawn subset.",
+        "Trusts vf/c36_ref.py (lookup order and the documented when/cond expansions); generated macro bodies count their calls so an endless expansion is a failure, not a hang.",
+        "macroenv", "2/C36"),
     "C06": (
         "Hypothesis-generated scoping programs (Engine C: nested let with sequential bindings and re-binding, fn/defn closures, parameters and locals shadowing let names, setv/for to let-bound names, lfor variables shadowing let names under both compilation strategies) differentially executed against a binder-resolving reference interpreter; every read is logged",
         "Thousands of programs per run at module and function level; the (id, value) log of every read and the final module values of the pool names (incl. a name that must never become a module variable) must equal the reference's.",
@@ -163,10 +178,11 @@ CHECKS.update({
         "operators", "2/C03"),
 })
 
+NOT_CLAIMED = {}
 LEVELS = {"C09": "fault_enumeration", "C38": "exploration"}
 
 NOT_YET = "check not built yet (planned in DESIGN.md section 2); not claimed"
-NOT_CLAIMED = {
+NOT_CLAIMED_OLD = {
     "C25": "a check module exists (vf/props/c25.py) but its failures on the unchanged tree are not triaged yet (hy.repr of bracket strings and f-string parts, "
            "DESIGN.md section 4/8); not claimed until each is either repaired or recorded as a known finding",
 }
@@ -209,7 +225,7 @@ def main():
              "kind_free_text": "Engine A: JSON program IR, Hypothesis generator (vf/proggen.py), renderer to Hy, reference interpreter with series-parallel effect traces, fault-injecting harness"},
             {"name": "names", "path": "vf/props/c32.py", "serves_properties": ["C32", "C33", "C34"],
              "kind_free_text": "code-point enumeration and Hypothesis name strategy"},
-            {"name": "textgen", "path": "vf/textgen.py", "serves_properties": ["C18", "C19", "C20", "C21", "C30"],
+            {"name": "textgen", "path": "vf/textgen.py", "serves_properties": ["C18", "C19", "C20", "C21", "C25", "C30"],
              "kind_free_text": "Engine B: Hypothesis-drawn syntax trees rendered to Hy text with independently built expected models, spans and open-construct intervals"},
             {"name": "operators", "path": "vf/props/c03.py", "serves_properties": ["C03"],
              "kind_free_text": "operator/arity/operand-vector enumeration and strategy with CPython as evaluator of the documented expansion"},
@@ -219,12 +235,14 @@ def main():
              "kind_free_text": "pattern/subject generator with Hy and Python renderers, CPython's match as reference"},
             {"name": "scopes", "path": "vf/scopes.py", "serves_properties": ["C06", "C07"],
              "kind_free_text": "Engine C: scoping-program IR, Hypothesis generator, renderer, binder-resolving reference interpreter"},
-            {"name": "values", "path": "vf/props/c27.py", "serves_properties": ["C27"],
+            {"name": "values", "path": "vf/props/c27.py", "serves_properties": ["C27", "C29"],
              "kind_free_text": "tagged JSON value trees incl. sharing and cycles"},
             {"name": "schedules", "path": "vf/c38_sched.py", "serves_properties": ["C38"],
              "kind_free_text": "owned thread scheduler on sys.monitoring INSTRUCTION events with a cooperative lock"},
             {"name": "sessions", "path": "vf/c40_sessions.py", "serves_properties": ["C40"],
              "kind_free_text": "REPL session driver and history model"},
+            {"name": "macroenv", "path": "vf/c36_ref.py", "serves_properties": ["C36"],
+             "kind_free_text": "macro-environment cases and a hy-free reference expansion stepper"},
             {"name": "literals", "path": "vf/props/c22.py", "serves_properties": ["C22", "C23", "C24"],
              "kind_free_text": "per-module structural generators of literal texts (vf/props/c22.py, c23.py, c24.py) with CPython as the reference evaluator"},
         ],
